@@ -100,6 +100,13 @@ package filtering
 //@   requires !held(d.confMu) && !rheld(d.confMu)
 //@   ensures both-stored: d.conf.ProtectionEnabled == status && d.conf.ProtectionDisabledUntil == disabledUntil
 //@   modifies d.conf.ProtectionEnabled, d.conf.ProtectionDisabledUntil
+// Setting the switch through the other API (dns_config) ends a pause as well: "enabled" with a pause deadline still in
+// force would keep blocked names flowing upstream although protection is reported on.
+//@ func (d *DNSFilter) SetProtectionEnabled(status bool)
+//@   property C01
+//@   requires !held(d.confMu) && !rheld(d.confMu)
+//@   ensures switch-ends-a-pause: d.conf.ProtectionEnabled == status && d.conf.ProtectionDisabledUntil == nil
+//@   modifies d.conf.ProtectionEnabled, d.conf.ProtectionDisabledUntil
 //@ func (d *DNSFilter) ProtectionStatus() (status bool, disabledUntil *time.Time)
 //@   property C01
 //@   requires !held(d.confMu) && !rheld(d.confMu)
